@@ -419,6 +419,7 @@ func (g *Gen) GenFunc(fn *ssa.Function, spec *FuncSpec) (vc *FnVC, err error) {
 	v.name = fn.Pkg.Pkg.Name() + "." + funcKey(fn)
 	v.pkg = fn.Pkg.Pkg
 	resetTermTables()
+	simplePatternsOnly = spec.Opts["patterns"] == "simple"
 	defer func() {
 		if r := recover(); r != nil {
 			switch e := r.(type) {
@@ -691,6 +692,58 @@ func (g *Gen) specFuncDefs(v *FnVC) string {
 		if sf != nil {
 			add(sf.Specs)
 		}
+	}
+	if v != nil {
+		// only the functions this VC mentions, closed under the calls in their bodies
+		byName := map[string]*SpecFunc{}
+		for _, f := range fs {
+			byName[f.Name] = f
+		}
+		lookup := func(n string) *SpecFunc {
+			if sf != nil {
+				if f := sf.Specs[n]; f != nil {
+					return f
+				}
+			}
+			return g.globalSpecs[n]
+		}
+		need := map[string]bool{}
+		var visit func(n string)
+		var walk func(e *Expr)
+		walk = func(e *Expr) {
+			if e == nil {
+				return
+			}
+			if e.Kind == "call" {
+				visit(e.Name)
+			}
+			for _, a := range e.Args {
+				walk(a)
+			}
+			walk(e.Lo)
+			walk(e.Hi)
+		}
+		visit = func(n string) {
+			if need[n] {
+				return
+			}
+			f := lookup(n)
+			if f == nil {
+				return
+			}
+			need[n] = true
+			walk(f.Body)
+		}
+		for n := range v.usedSpecs {
+			visit(n)
+		}
+		var keep []*SpecFunc
+		for _, f := range fs {
+			if need[f.Name] {
+				keep = append(keep, f)
+			}
+		}
+		fs = keep
 	}
 	var b strings.Builder
 	var later []string
